@@ -68,18 +68,23 @@ def hot(f):
     a negated quantifier over a binary connective (where the splitters push negations through binders)"""
     if f[0] == 'quant' and f[4][0] == 'un' and f[4][1] == 'not' and f[4][2][0] == 'bin':
         return True
+    if f[0] == 'quant' and f[4][0] == 'bin' and 'quant' in (f[4][2][0], f[4][3][0]):
+        return True  # a quantifier over a connective one of whose operands is itself a quantifier
     return f[0] == 'un' and f[1] == 'not' and f[2][0] == 'quant' and f[2][4][0] == 'bin'
 
 
-def fill_domains(e, rng):
+def fill_domains(e, rng, outer=None):
     if e == ('D',):
+        if outer is not None and rng.random() < 0.5:
+            return outer
         return gen.pick(rng, DOMAINS)
     if e[0] == 'quant':
-        return ('quant', e[1], e[2], fill_domains(e[3], rng), fill_domains(e[4], rng))
+        d = fill_domains(e[3], rng, outer)
+        return ('quant', e[1], e[2], d, fill_domains(e[4], rng, d))
     ks = A.children(e)
     if not ks:
         return e
-    return A.rebuild(e, [fill_domains(k, rng) for k in ks])
+    return A.rebuild(e, [fill_domains(k, rng, outer) for k in ks])
 
 
 def grid():
